@@ -14,6 +14,7 @@ DOC = {
                    'ever receives a KEEP path as its mutated argument (R4); the eligibility filters precede sub-grouping (R5); hard links / reflinks are planned per device (R6); '
                    'the staleness check covers every member of the group (R7 = C04.R2/R3).',
     'rules': {
+        'C02.M': __import__('fcverif.rules.common', fromlist=['MANDATORY_TEXT']).MANDATORY_TEXT,
         'C02.R1': 'partition: n = max(1, rf_over..); the retained set is extended by drain(0..min(|to_drop|, n - |to_retain|)) where |to_retain| counts sub-groups',
         'C02.R2': 'dedupe_script: returns no command when to_drop is empty; asserts to_keep non-empty before building any command',
         'C02.R3': 'every FsCommand construction: target has role KEEP only; link/file/source has role DROP only',
@@ -35,6 +36,8 @@ def run(ctx):
     r5(ctx)
     r6(ctx)
     r7(ctx)
+    from .common import run_mandatory
+    run_mandatory(ctx, 'C02')
 
 
 def r1(ctx):
